@@ -12,7 +12,7 @@ from lib.coqterm import cbytes, cbool, cZ, cN, clist, copt
 
 ID = "C47"
 QUICK_N = 800
-THOROUGH_N = 6000
+THOROUGH_N = 4000
 SHARD = 100
 COQ_PRELUDE = "From MV Require Import Model.WebFlowEdit.\n"
 RULE = ("A case = flow recipe (response present or not, request headers incl. Host/transfer-encoding/duplicate "
